@@ -16,7 +16,8 @@ ID = "C07"
 TAG = "types"
 EXTRACT = "FA/Extract/ExtractTypes.v"
 DRIVER = "driver_types.ml"
-COQ_FILES = ["FA/Proofs/TypeFollowFacts.v", "FA/Proofs/TypeFollowFill.v", "FA/Properties/C07.v"]
+COQ_FILES = ["FA/Proofs/TypeFollowFacts.v", "FA/Proofs/TypeFollowFill.v", "FA/Proofs/TypeFollowNormalised.v",
+             "FA/Properties/C07.v"]
 
 LEVEL = ("Coq theorems over the executable model of _fill_in_default_arguments/_find_keyword (`fill`, whose parameter filter "
          "and index increment are read from the source on every run) and of the method-call path of the type follower: "
